@@ -306,6 +306,63 @@ def in_flight(ctx, kind, entries, reqspecs, pre=None):
             inflight.check_preempted(ctx, pre, iface, app, reqs[0], reqs[1], kind, dict(case, preempted=True))
 
 
+class FalsyApp:
+    """an application object that is falsy (a container-like app with __len__ == 0, e.g. a router without routes of its own)"""
+
+    def __init__(self, inner):
+        self.inner = inner
+
+    def __len__(self):
+        return 0
+
+    def __call__(self, *a):
+        return self.inner(*a)
+
+
+def odd_leaves(ctx):
+    """leaves that RAISE (the error is the application's: it goes to the server as it is, it is not a reason to answer 404) and
+    leaves that are falsy objects (selected like any other)"""
+    from baize import asgi, wsgi
+
+    class LeafError(TypeError):
+        pass
+    for exc_cls in (LeafError, ValueError, KeyError, LookupError, AssertionError):
+        for kind in ("mounts", "hosts"):
+            for iface, ns in (("wsgi", wsgi), ("asgi", asgi)):
+                if iface == "wsgi":
+                    def bad(environ, start_response, exc_cls=exc_cls):
+                        raise exc_cls("leaf failed")
+                else:
+                    async def bad(scope, receive, send, exc_cls=exc_cls):
+                        raise exc_cls("leaf failed")
+                app = ns.Subpaths(("/api", bad), ("", bad)) if kind == "mounts" else ns.Hosts((r"api\.example\.com", bad), (".*", bad))
+                req = drivers.Req(path=b"/api/x", headers=[("Host", "api.example.com")])
+                res = drivers.run_wsgi(app, drivers.to_environ(req)) if iface == "wsgi" else drivers.run_asgi(app, drivers.to_scope(req))
+                ctx.mon("leaf-raises")
+                if not isinstance(res.exc, exc_cls):
+                    ctx.violation(f"leaf-exception-not-passed-on|{kind}|{iface}", {"odd_leaf": "raises " + exc_cls.__name__, "kind": kind, "iface": iface},
+                                  f"the leaf raised {exc_cls.__name__}; the server saw {res.exc!r} / status {res.code}")
+    for kind in ("mounts", "hosts"):
+        for iface, ns in (("wsgi", wsgi), ("asgi", asgi)):
+            hit = {}
+            if iface == "wsgi":
+                def ok(environ, start_response):
+                    hit["i"] = 1
+                    start_response("200 OK", [])
+                    return [b"ok"]
+            else:
+                async def ok(scope, receive, send):
+                    hit["i"] = 1
+                    await send({"type": "http.response.start", "status": 200, "headers": []})
+                    await send({"type": "http.response.body", "body": b"ok"})
+            app = ns.Subpaths(("/api", FalsyApp(ok))) if kind == "mounts" else ns.Hosts((r"api\.example\.com", FalsyApp(ok)))
+            req = drivers.Req(path=b"/api/x", headers=[("Host", "api.example.com")])
+            res = drivers.run_wsgi(app, drivers.to_environ(req)) if iface == "wsgi" else drivers.run_asgi(app, drivers.to_scope(req))
+            ctx.mon("falsy-application-object")
+            if hit.get("i") != 1 or res.code != 200:
+                ctx.violation(f"falsy-application-not-selected|{kind}|{iface}", {"odd_leaf": "falsy application object", "kind": kind, "iface": iface}, f"status {res.code}, exc {res.exc!r}")
+
+
 def has_prefix_pair(table):
     ps = [p for p, _ in table]
     return any(a != b and b.startswith(a) for a in ps for b in ps)
@@ -314,6 +371,9 @@ def has_prefix_pair(table):
 def run(ctx):
     rng = ctx.rng("c09")
     roots = ["", "/root", "/r/é", "/site/", "/", "/caf\xe9"]  # (a root path with a trailing slash is unusual, but it is the server's to choose)
+    if ctx.shard == 0:
+        odd_leaves(ctx)
+        ctx.case(("odd-leaves",))
     if ctx.shard == 0:
         # hand-picked regression tables
         for table, root, path in [([("/a", None), ("", None)], "", "/ab"), ([("/a", None)], "/root", "/a"),
@@ -405,6 +465,10 @@ def _detuple(t):
 
 
 def replay(ctx, case):
+    if "odd_leaf" in case:
+        odd_leaves(ctx)
+        ctx.case(1)
+        return
     if "in_flight" in case:
         pre = None
         if case.get("preempted"):
